@@ -509,6 +509,9 @@ func runC13(c *Ctx) {
 		{"names-absent-2^31-while-minus-2^31-present", func(t int) []any { return []any{gen.SpellIntAs(1<<31, t)} }, []*Node{refcbor.NInt(1 << 31)}, map[int64]bool{-(1 << 31): true}, nil},
 		{"names-absent-4-while-260-present", func(t int) []any { return []any{gen.SpellIntAs(4, t)} }, []*Node{refcbor.NInt(4)}, map[int64]bool{260: true}, nil},
 		{"names-unprotected-only", func(t int) []any { return []any{gen.SpellIntAs(4, t)} }, []*Node{refcbor.NInt(4)}, nil, map[int64]bool{4: true}},
+		{"names-present-and-repeated-in-unprotected", func(t int) []any { return []any{gen.SpellIntAs(4, t)} }, []*Node{refcbor.NInt(4)}, map[int64]bool{4: true}, map[int64]bool{4: true}},
+		{"names-absent-0-while-text-label-present", func(t int) []any { return []any{gen.SpellIntAs(0, t)} }, []*Node{refcbor.NInt(0)}, nil, nil},
+		{"names-present-0", func(t int) []any { return []any{gen.SpellIntAs(0, t)} }, []*Node{refcbor.NInt(0)}, map[int64]bool{0: true}, nil},
 		{"names-two-present", func(t int) []any { return []any{gen.SpellIntAs(4, t), gen.SpellIntAs(33, (t+3)%10)} }, []*Node{refcbor.NInt(4), refcbor.NInt(33)}, map[int64]bool{4: true, 33: true}, nil},
 		{"names-one-present-one-absent", func(t int) []any { return []any{gen.SpellIntAs(4, t), gen.SpellIntAs(34, t)} }, []*Node{refcbor.NInt(4), refcbor.NInt(34)}, map[int64]bool{4: true}, nil},
 		{"names-itself", func(t int) []any { return []any{gen.SpellIntAs(2, t)} }, []*Node{refcbor.NInt(2)}, nil, nil},
@@ -532,7 +535,7 @@ func runC13(c *Ctx) {
 						hs.goUnprot[gen.SpellIntAs(l, tKid)] = []byte("v")
 						hs.wireUnprot.Kids = append(hs.wireUnprot.Kids, refcbor.NInt(l), refcbor.NBstr([]byte("v")))
 					}
-					if cc.name == "text-entry-present" {
+					if cc.name == "text-entry-present" || cc.name == "names-absent-0-while-text-label-present" {
 						hs.goProt["x"] = int64(1)
 						hs.wireProt.Kids = append(hs.wireProt.Kids, refcbor.NTstr("x"), refcbor.NInt(1))
 					}
